@@ -10,6 +10,7 @@ global size_of usize == 8;
 
 //@@ filter_paeth
 
+//@@ filter_avg
 //@@ unfilter
 }
 fn main(){}
